@@ -273,6 +273,20 @@ impl Args {
         base + extra
     }
 
+    /// Share of a secondary workload of a binary: `--<key> N` sets its total; otherwise it is the
+    /// default scaled by the same factor `--budget` scales the main workload with.
+    pub fn share_scaled(&self, key: &str, quick_total: u64, thorough_total: u64, main_quick: u64, main_thorough: u64) -> u64 {
+        let (default, main) = if self.thorough() { (thorough_total, main_thorough) } else { (quick_total, main_quick) };
+        let total = match (self.extra.get(key), self.budget) {
+            (Some(v), _) => v.parse().expect("numeric extra argument"),
+            (None, Some(b)) => ((b as u128 * default as u128) / main.max(1) as u128) as u64,
+            (None, None) => default,
+        };
+        let base = total / self.workers;
+        let extra = if self.worker < total % self.workers { 1 } else { 0 };
+        base + extra
+    }
+
     pub fn worker_seed(&self) -> u64 {
         let mut x = self.seed ^ (self.worker.wrapping_add(1)).wrapping_mul(0xD6E8_FEB8_6659_FD93);
         splitmix(&mut x)
